@@ -33,6 +33,7 @@ RES = (1, 2, 3, 7, 96, 100, 192, 480, 960)
 BPMS = (1, 999, 1000, 1001, 1118, 59999, 120000, 120001, 333333, 20548, 99999999, 10**9)
 GAPS = (1, 2, 3, 191, 192, 193, 1000)
 SUB_BPMS = (1, 1000, 120000, 10**9)
+BPMS3_QUICK = (1, 1000, 1118, 120000, 333333, 10**9)
 LIMIT = 10**12  # microseconds: 10^6 s
 TOL = Fraction(1, 2) + Fraction(2, 1000)
 
@@ -103,7 +104,7 @@ def plan(tier, seed):
             for n0 in SUB_BPMS:
                 for n1 in SUB_BPMS:
                     shards.append(("deep", r, n0, n1, 6 if r in (1, 192) else 5))
-    b = dict(resolutions=list(ress), bpm_thousandths=list(BPMS), gaps=list(GAPS), segments=3, third_gap=[1, 192] if tier == "quick" else [1, 2, 192, 1000])
+    b = dict(resolutions=list(ress), bpm_thousandths=list(BPMS), gaps=list(GAPS), segments=3, third_gap=[1, 192] if tier == "quick" else [1, 2, 192, 1000], third_bpm=list(BPMS3_QUICK) if tier == "quick" else list(BPMS))
     if tier == "thorough":
         b["deep"] = "k=4..5 (k=6 for resolutions 1 and 192) over bpm %r, gaps [1,192]" % (SUB_BPMS,)
     return dict(shards=shards, bounds=b, budget_s=1500 if tier == "thorough" else 300)
@@ -190,7 +191,7 @@ def run_shard(shard, ctx):
                 check_map(ctx, [(0, n0), (g1, n1)], r)
                 if kmax >= 2:
                     for g2 in ((1, 192) if kmax == 2 else (1, 2, 192, 1000)):
-                        for n2 in BPMS:
+                        for n2 in (BPMS3_QUICK if kmax == 2 else BPMS):
                             check_map(ctx, [(0, n0), (g1, n1), (g1 + g2, n2)], r)
     else:
         _, r, n0, n1, kmax = shard
